@@ -305,3 +305,16 @@ package panos
 //vc:func (*rulesPair).equalize
 //vc:  assert[C03] at "equalizeList(a.panRuleSrc" @sourceUnderItsPath arg2 == rulePath + "/source"
 //vc:  assert[C03] at "equalizeList(a.panRuleDst" @destinationUnderItsPath arg2 == rulePath + "/destination"
+
+// portEq / protocolEq: equal services have their port under the same protocol
+// (tcp with tcp, udp with udp) and the same port text there.
+//vc:func portEq
+//vc:  nullable a, b
+//vc:  ensures[C03] @equalPortsAgree result ==> ((a == nil) == (b == nil)) && (a != nil && b != nil ==> a.Port == b.Port)
+//vc:func protocolEq
+//vc:  ensures[C03] @sameProtocolSamePort result ==> ((a.TCP == nil) == (b.TCP == nil)) && ((a.UDP == nil) == (b.UDP == nil)) && (a.TCP != nil && b.TCP != nil ==> a.TCP.Port == b.TCP.Port) && (a.UDP != nil && b.UDP != nil ==> a.UDP.Port == b.UDP.Port)
+//vc:func addressEq
+//vc:  ensures[C03] @equalAddressesAgree result ==> a.IpNetmask == b.IpNetmask && len(a.Unknown) == len(b.Unknown)
+//vc:func unknownEq
+//vc:  invariant[C03] 1 "for i, uA := range a" @elementsEqualSoFar len(a) == len(b) && -1 <= rangeindex && (forall k int :: { a[k] } 0 <= k && k <= rangeindex ==> a[k].XMLName == b[k].XMLName && a[k].XML == b[k].XML)
+//vc:  ensures[C03] @equalListsAgree result ==> len(a) == len(b) && (forall k int :: { a[k] } 0 <= k && k < len(a) ==> a[k].XMLName == b[k].XMLName && a[k].XML == b[k].XML)
